@@ -1,5 +1,269 @@
-use crate::util::{Args, Report};
-pub fn run(_a: &Args, _r: &mut Report) {
-    eprintln!("not implemented yet");
-    std::process::exit(2);
+//! C01 — decoding is total: any bytes give a message or an error, never a crash.
+use crate::oracle::bits::Bits;
+use crate::props::common::{self, REGISTERS};
+use crate::util::{fnv, guarded, hexs, msg_class, short_loc, Args, Report, Rng};
+use rs1090::decode::bds::{bds05, bds10, bds17, bds18, bds19, bds20, bds21, bds30, bds40, bds44, bds45, bds50, bds60, bds65};
+use rs1090::decode::Message;
+use rs1090::prelude::*;
+use serde_json::json;
+use std::time::Instant;
+
+/// run every public per-register reader on a 56-bit payload; returns bitmap of registers that accepted
+fn registers(payload: &[u8]) -> u32 {
+    let mut m = 0u32;
+    macro_rules! t {
+        ($i:expr, $ty:ty) => {
+            if <$ty>::try_from(payload).is_ok() {
+                m |= 1 << $i;
+            }
+        };
+    }
+    t!(0, bds05::AirbornePosition);
+    t!(1, bds10::DataLinkCapability);
+    t!(2, bds17::CommonUsageGICBCapabilityReport);
+    t!(3, bds18::GICBCapabilityReportPart1);
+    t!(4, bds19::GICBCapabilityReportPart2);
+    t!(5, bds20::AircraftIdentification);
+    t!(6, bds21::AircraftAndAirlineRegistrationMarkings);
+    t!(7, bds30::ACASResolutionAdvisory);
+    t!(8, bds40::SelectedVerticalIntention);
+    t!(9, bds44::MeteorologicalRoutineAirReport);
+    t!(10, bds45::MeteorologicalHazardReport);
+    t!(11, bds50::TrackAndTurnReport);
+    t!(12, bds60::HeadingAndSpeedReport);
+    t!(13, bds65::AircraftOperationStatus);
+    m
+}
+
+pub fn check_bytes(r: &mut Report, bytes: &[u8], origin: &str, slow: &mut Vec<(f64, String)>) {
+    r.evaluations += 1;
+    let t0 = Instant::now();
+    let res = guarded(|| {
+        let a = Message::try_from(bytes);
+        let b = Message::try_from(bytes);
+        let c = Message::from_bytes((bytes, 0));
+        (a, b, c)
+    });
+    let dt = t0.elapsed().as_secs_f64();
+    if dt > 2.0 {
+        slow.push((dt, hexs(bytes)));
+    }
+    let rp = || json!({"kind": "frame", "frame": hexs(bytes), "origin": origin});
+    let (a, b, c) = match res {
+        Err((loc, msg)) => {
+            r.violation(&format!("C01:panic:decode:{}", short_loc(&loc)), format!("decoding {} ({origin}) panicked at {}: {}", hexs(bytes), short_loc(&loc), msg_class(&msg)), rp());
+            return;
+        }
+        Ok(x) => x,
+    };
+    let expected_len = if bytes.is_empty() { 0 } else if bytes[0] & 0x80 != 0 { 14 } else { 7 };
+    match (&a, &b) {
+        (Ok(x), Ok(y)) => {
+            if x != y {
+                r.violation("C01:nondeterministic", format!("two decodes of {} differ", hexs(bytes)), rp());
+            }
+            if bytes.len() != expected_len {
+                r.violation("C01:wrong-length-accepted", format!("{} bytes accepted for DF{} (needs {expected_len}): {}", bytes.len(), bytes[0] >> 3, hexs(bytes)), rp());
+            }
+            // rendering must not panic and must be deterministic
+            let rendered = guarded(|| (format!("{x}"), format!("{x:?}"), format!("{y:?}"), format!("{x:#}")));
+            match rendered {
+                Err((loc, msg)) => r.violation(&format!("C01:panic:render:{}", short_loc(&loc)), format!("rendering {} panicked at {}: {}", hexs(bytes), short_loc(&loc), msg_class(&msg)), rp()),
+                Ok((_d, g1, g2, _)) => {
+                    if g1 != g2 {
+                        r.violation("C01:nondeterministic:debug", format!("Debug text of two decodes of {} differs", hexs(bytes)), rp());
+                    }
+                }
+            }
+            let cls = common::classify(x);
+            for c in common::coverage_classes(x) {
+                r.class(&format!("accepted:{c}"));
+            }
+            r.distinct(fnv(bytes));
+            if r.samples.len() < 4 && origin == "structured" {
+                r.sample(json!({"frame": hexs(bytes), "class": cls}));
+            }
+        }
+        (Err(_), Err(_)) => {
+            r.class(if bytes.len() == expected_len { "rejected:right-length" } else { "rejected:wrong-length" });
+        }
+        _ => r.violation("C01:nondeterministic", format!("two decodes of {} differ (Ok vs Err)", hexs(bytes)), rp()),
+    }
+    // from_bytes accepts a prefix of a longer buffer; with exactly the right length it must agree with try_from
+    if bytes.len() == expected_len && expected_len > 0 {
+        match (&a, &c) {
+            (Ok(x), Ok((_, y))) if x != y => r.violation("C01:from_bytes-disagrees", format!("from_bytes and try_from differ on {}", hexs(bytes)), rp()),
+            (Ok(_), Err(_)) | (Err(_), Ok(_)) => r.violation("C01:from_bytes-disagrees", format!("from_bytes and try_from differ (Ok/Err) on {}", hexs(bytes)), rp()),
+            _ => {}
+        }
+    } else if let Ok((_, m)) = &c {
+        // a longer buffer: from_bytes consumed a prefix; it must be the message of that prefix
+        if bytes.len() > expected_len && expected_len > 0 {
+            if let Ok(p) = Message::try_from(&bytes[..expected_len]) {
+                if &p != m {
+                    r.violation("C01:from_bytes-prefix", format!("from_bytes on {} differs from try_from on its {expected_len}-byte prefix", hexs(bytes)), rp());
+                }
+            }
+        }
+    }
+}
+
+pub fn check_payload(r: &mut Report, p: &[u8; 7], origin: &str) {
+    r.evaluations += 1;
+    match guarded(|| (registers(p), registers(p))) {
+        Err((loc, msg)) => r.violation(&format!("C01:panic:register:{}", short_loc(&loc)), format!("register reader panicked on payload {} at {}: {}", hexs(p), short_loc(&loc), msg_class(&msg)), json!({"kind":"payload","payload":hexs(p),"origin":origin})),
+        Ok((m1, m2)) => {
+            if m1 != m2 {
+                r.violation("C01:nondeterministic:register", format!("register readers disagree with themselves on {}", hexs(p)), json!({"kind":"payload","payload":hexs(p)}));
+            }
+            for (i, name) in REGISTERS.iter().enumerate() {
+                if m1 & (1 << i) != 0 {
+                    r.class(&format!("register-accepts:{name}"));
+                }
+            }
+            r.distinct(fnv(p) ^ 0x5555);
+        }
+    }
+}
+
+pub fn run(a: &Args, r: &mut Report) {
+    r.rule = "cases: (a) random bytes of every length 0..=32; (b) structure-aware 7/14-byte frames for every DF 0..31 (DF17/18: every TC x subtype, sealed with the oracle CRC; AP formats; Comm-B payloads built per register hypothesis), fields boundary-biased; (c) 56-bit payloads offered directly to each of the 14 public register readers and through DF20/21; (d) thorough: exhaustive 16-bit windows slid over the ME of one base frame per type code. distinct_nontrivial = distinct byte strings that were ACCEPTED (hash set), plus distinct payloads offered to the register readers".into();
+    r.assumptions.push("non-termination is detected by a 2 s per-call timer inside the shard plus the orchestrator's watchdog; a slow input is re-run alone before it is called a hang".into());
+    let mut slow = vec![];
+    if let Some(p) = &a.replay {
+        let v: serde_json::Value = serde_json::from_str(&std::fs::read_to_string(p).unwrap()).unwrap();
+        let rp = &v["replay"];
+        if rp["kind"] == "payload" {
+            let b = hex::decode(rp["payload"].as_str().unwrap()).unwrap();
+            let mut p = [0u8; 7];
+            p.copy_from_slice(&b);
+            check_payload(r, &p, "replay");
+        } else {
+            check_bytes(r, &hex::decode(rp["frame"].as_str().unwrap()).unwrap(), "replay", &mut slow);
+        }
+        return;
+    }
+    let mut rng = Rng::new(a.seed, a.shard, "C01");
+    // (a) random bytes, all lengths
+    let n = a.budget(600_000, 40_000_000);
+    for i in 0..n {
+        let len = (i % 33) as usize;
+        let mut b = rng.bytes(len);
+        if len > 0 && rng.chance(0.5) {
+            // force each DF equally often
+            b[0] = ((rng.below(32) as u8) << 3) | (b[0] & 7);
+        }
+        check_bytes(r, &b, "random", &mut slow);
+    }
+    // (b) structured
+    let n = a.budget(2_400_000, 160_000_000);
+    for i in 0..n {
+        let df = (i % 32) as u8;
+        // spend most of the budget on the formats with real structure
+        let df = if matches!(df, 1 | 2 | 3 | 6..=10 | 12..=15 | 22 | 23) && rng.chance(0.8) { *rng.pick(&[17u8, 17, 17, 18, 20, 21, 20, 21, 4, 5, 0, 16, 11]) } else { df };
+        let f = common::structured(&mut rng, df);
+        check_bytes(r, &f, "structured", &mut slow);
+        // wrong lengths of a well-formed frame: truncated / extended
+        if i % 16 == 0 {
+            let mut g = f.clone();
+            match rng.below(3) {
+                0 => g.truncate(rng.below(g.len() as u64 + 1) as usize),
+                1 => {
+                    let k = rng.range(1, 18) as usize;
+                    g.extend_from_slice(&rng.bytes(k))
+                }
+                _ => {
+                    // swap the length class: keep the bytes, flip the DF's long/short bit
+                    g[0] ^= 0x80;
+                }
+            }
+            check_bytes(r, &g, "structured-wrong-length", &mut slow);
+        }
+    }
+    // (c) payloads straight into the register readers
+    let n = a.budget(600_000, 40_000_000);
+    for _ in 0..n {
+        let ac = rng.biased(13) as u16;
+        let p = common::commb_payload(&mut rng, ac);
+        check_payload(r, &p, "commb");
+    }
+    // (d) exhaustive 16-bit windows (thorough)
+    if a.thorough() {
+        let mut k = 0u64;
+        for tc in 0..32u8 {
+            for off in [6usize, 14, 22, 30, 38, 41] {
+                k += 1;
+                if k % a.nshards != a.shard {
+                    continue;
+                }
+                let base = common::adsb_me(&mut rng, tc);
+                for w in 0..65536u64 {
+                    let mut b = Bits::from(&base);
+                    b.set(off, 16, w);
+                    b.set(1, 5, tc as u64);
+                    let mut me = [0u8; 7];
+                    me.copy_from_slice(&b.bytes);
+                    let f = crate::oracle::frames::df17(5, 0x3c6589, &me);
+                    check_bytes(r, &f, "window16", &mut slow);
+                }
+                r.class_n("window16:exhaustive-windows", 1);
+            }
+        }
+        for (ri, reg) in REGISTERS.iter().enumerate() {
+            for off in [1usize, 9, 17, 25, 33, 41] {
+                k += 1;
+                if k % a.nshards != a.shard {
+                    continue;
+                }
+                let base = common::commb_for(&mut rng, reg, 0x0c30);
+                for w in 0..65536u64 {
+                    let mut b = Bits::from(&base);
+                    b.set(off, 16, w);
+                    let mut mb = [0u8; 7];
+                    mb.copy_from_slice(&b.bytes);
+                    check_payload(r, &mb, "window16");
+                    if w % 4 == ri as u64 % 4 {
+                        let f = crate::oracle::frames::df20(0, 0, 0, 0x0c30, &mb, 0x3c6589);
+                        check_bytes(r, &f, "window16-commb", &mut slow);
+                    }
+                }
+                r.class_n("window16:exhaustive-windows", 1);
+            }
+        }
+    }
+    for (dt, f) in slow {
+        // re-run alone: only a reproduced slowness is reported
+        let t0 = Instant::now();
+        let b = hex::decode(&f).unwrap();
+        let _ = guarded(|| Message::try_from(b.as_slice()).is_ok());
+        let again = t0.elapsed().as_secs_f64();
+        if again > 2.0 {
+            r.violation("C01:slow-decode", format!("decoding {f} took {dt:.1}s and {again:.1}s when re-run alone"), json!({"kind":"frame","frame":f}));
+        }
+    }
+    let mut mand: Vec<String> = vec!["accepted:DF0".into(), "accepted:DF4".into(), "accepted:DF5".into(), "accepted:DF11".into(), "accepted:DF16".into(), "accepted:DF19".into(), "accepted:DF24-31".into(),  "accepted:DF18".into()];
+    for tc in [0, 1, 2, 3, 4, 5, 6, 7, 8, 23, 24, 30] {
+        mand.push(format!("accepted:DF17:TC{tc}"));
+    }
+    for st in 0..8 {
+        mand.push(format!("accepted:DF17:TC19:st{st}"));
+    }
+    for s in ["accepted:DF17:BDS05", "accepted:DF17:TC25-27", "accepted:DF17:TC28", "accepted:DF17:TC29", "accepted:DF17:TC31:airborne", "accepted:DF17:TC31:surface", "accepted:DF17:TC31:reserved"] {
+        mand.push(s.into());
+    }
+    for reg in REGISTERS {
+        if reg == "bds65" {
+            // the Comm-B BDS 6,5 hypothesis re-reads the type code as the variant id and can never succeed
+            // on the unchanged tree (cf. the repository's own test_bds5060_no65); it is exercised but not required
+            continue;
+        }
+        mand.push(format!("register-accepts:{reg}"));
+        if reg != "bds05" {
+            mand.push(format!("accepted:DF21:reg:{}", &reg[3..]));
+        }
+        mand.push(format!("accepted:DF20:reg:{}", &reg[3..]));
+    }
+    if !a.asan {
+        r.extra.insert("mandatory".into(), json!(mand));
+    }
 }
